@@ -41,8 +41,10 @@ def main():
         return 3
     spec = PM.PROPS[pid]
     timeout_ms = 40000 if tier == "quick" else 150000
-    quals = sorted(set([q for q, c in REGISTRY.items() if hasattr(c, "tags") and pid in c.tags]
-                       + list(spec.get("functions_all", []))))
+    also = PM.TAG_ALSO.get(pid, [])
+    quals = sorted(set([q for q, c in REGISTRY.items() if hasattr(c, "tags") and (pid in c.tags or any(a in c.tags for a in also))]
+                       + PM.functions_all(pid)))
+    fall = PM.functions_all(pid)
     results = R.run_functions(quals, timeout_ms=timeout_ms, split=PM.SPLIT)
     from pvc.front import Source
     src = Source()
@@ -58,7 +60,7 @@ def main():
             undecided.append("%s: %s" % (r["qual"], r["unsupported"]))
         fuc[r["qual"]] = {"sha256_16": src.sha(r["qual"]), "paths": r["paths"], "exits": r["exits"]}
         for o in r["results"]:
-            if pid in o["tags"] or r["qual"] in spec.get("functions_all", []):
+            if pid in o["tags"] or r["qual"] in fall or any(a in o["tags"] for a in PM.TAG_ALSO.get(pid, [])):
                 o["function"] = r["qual"]
                 obls.append(o)
     # structural checks on the ASTs (census) and pure lemmas over the contracts
